@@ -81,7 +81,22 @@ def in_string_or_comment(line, col):
     return None
 
 
-def classify_missing(r, key, ent, all_req):
+def in_select_type_of(r, key, ent):
+    """Is the occurrence at `key` inside a SELECT TYPE construct whose selector is `ent` (or on its SELECT TYPE line)?"""
+    for o in r.occs:
+        if (o.file, o.line, o.col) == tuple(key[:3]):
+            return any(d is ent for d, _ in getattr(o.stmt, "seltype", ()))
+    return False
+
+
+SELTYPE_LABEL = "select-type-selector:occurrences-inside-the-construct-are-bound-to-a-stand-in-per-type-guard"
+
+
+def classify_missing(r, key, ent, all_req, query=None):
+    if in_select_type_of(r, key, ent) or (query is not None and in_select_type_of(r, query, ent)):
+        # fortls binds the selector name inside 'select type (x)' to a per-region stand-in variable: references / rename
+        # from outside do not reach the occurrences inside and vice versa
+        return "missed:" + SELTYPE_LABEL
     f, ln, c, e = key
     line = r.lines[f][ln]
     n = e - c
@@ -170,7 +185,7 @@ def check_program(ctx, prog, layout, picks, scratch, validate=True):
                      x["range"]["end"]["character"]) for x in resp.get("result") or []}
                 miss, extra = R - got, got - R - O
                 for k in sorted(miss)[:3]:
-                    discs.append(Disc(classify_missing(r, k, e, R), f"{short} on {e.kind} {e.name!r} from {q[:3]}: missing {k} "
+                    discs.append(Disc(classify_missing(r, k, e, R, q), f"{short} on {e.kind} {e.name!r} from {q[:3]}: missing {k} "
                                       f"({r.lines[k[0]][k[1]].strip()[:70]!r})", {"query": [short, q[0], q[1], q[2] + off], "missing": list(k)}))
                 for k in sorted(extra)[:3]:
                     discs.append(Disc(classify_extra(r, prog, k, e), f"{short} on {e.kind} {e.name!r} from {q[:3]}: extra {k} "
@@ -203,7 +218,7 @@ def check_program(ctx, prog, layout, picks, scratch, validate=True):
             discs.append(Disc(f"rename:{bad_text[0]}", f"rename of {e.name!r}: edit {bad_text[1]} has {bad_text[2]!r}", {"query": ["rename", q[0], q[1], q[2]]}))
         miss, extra = R - got, got - R - O
         for k in sorted(miss)[:3]:
-            discs.append(Disc(classify_missing(r, k, e, R), f"rename of {e.kind} {e.name!r} from {q[:3]}: no edit for {k} "
+            discs.append(Disc(classify_missing(r, k, e, R, q), f"rename of {e.kind} {e.name!r} from {q[:3]}: no edit for {k} "
                               f"({r.lines[k[0]][k[1]].strip()[:70]!r})", {"query": ["rename", q[0], q[1], q[2]], "missing": list(k)}))
         for k in sorted(extra)[:3]:
             discs.append(Disc(classify_extra(r, prog, k, e), f"rename of {e.kind} {e.name!r} from {q[:3]}: edits {k} "
